@@ -45,6 +45,8 @@ func checkC09(r *Run) {
 	r.Rule("C09.PAIR", "every sync.Mutex/RWMutex acquisition in cesium is released exactly once on every exit of the acquiring function (or handed back as a releaser); a leak blocks the next writer forever", 40)
 	r.Rule("C09.GUARD", "every read of a guarded field holds its lock class in R or W mode, every write in W mode, either locally on every path or in every caller chain from an entry point", 80)
 	r.Rule("C09.ORDER", "the lock-class order graph (held -> acquired, through calls) has no cycle", 8)
+	r.Rule("C09.APPEND", "no append in cesium extends a slice held in a field of a shared object unless the result is stored back into that field (an unsynchronised write into a shared backing array is a data race even under a read lock)", 1)
 	applyLockRules(r, p, lockRuleSet{Prefix: "C09", Scope: cesiumScope, Guards: cesiumGuards, Pair: true, Order: true, MinOps: 100, MinAcc: 120})
+	checkAppendAliasing(r, p, "C09.APPEND", cesiumScope)
 	_ = strings.TrimSpace
 }
